@@ -34,6 +34,7 @@ def describe(ck):
     ck.rule("R05p", "an array that replaces msa->sequences receives no NULL slot: every record of the old array is carried over")
     ck.rule("R05r", "loops bounded by the length of an input line index that line, or a pointer at a known offset with the bound reduced by it, or test for the terminating NUL")
     ck.rule("R05s", "every function that (re)allocates msa_seq.gaps zeroes the counters up to exactly the allocated count")
+    ck.rule("R05t", "a va_list is consumed by at most one callee between va_start/va_copy and va_end on every path")
     ck.rule("R05j", "loop-carried appends X->buf[X->count]; X->count++ test count against capacity before the next element access")
     ck.rule("R05k", "a local pointer that aliases storage owned by a struct field is not passed to a releaser while the owner still holds it")
     ck.not_decided += ["termination of all loops", "index safety inside the DP / bit-parallel kernels",
@@ -430,6 +431,7 @@ def run(ck, progs):
         ck.attempt(r05n, ck, prog)
         ck.attempt(r05o, ck, prog)
         ck.attempt(r05s, ck, prog)
+        ck.attempt(r05t, ck, prog)
         n = ck.attempt(r05r, ck, prog)
         ck.floor("R05r", n, 3, "line-length bounded accesses")
         ck.attempt(r05p, ck, prog)
@@ -1882,3 +1884,48 @@ def r05s(ck, prog):
                          "%s allocates %s gap counters but zeroes %d fewer: the last slot(s) keep stale heap contents and are later "
                          "summed as gaps (the result depends on what earlier calls left on the heap)" % (F.name, es, top), prog.config)
     ck.floor("R05s", n, 3, "allocators of msa_seq.gaps")
+
+
+# --------------------------------------------------------------------------- R05t
+def r05t(ck, prog):
+    """a va_list is walked once: between va_start (or function entry, for a va_list parameter) and va_end, at most one
+    call receives the list on any path - a second v*printf on the same list reads indeterminate arguments (C11 7.16/3)"""
+    n = 0
+    for F in prog.all_functions:
+        if F.cfg is None or F.body is None:
+            continue
+        vars_ = {}
+        for r in F.body.find("DeclRefExpr"):
+            if "__va_list_tag" in r.ty and r.d.get("dk") in ("Var", "Parm"):
+                vars_.setdefault(r.d["did"], r.d["name"])
+        for did, name in vars_.items():
+            uses, restarts = [], []
+            for c in F.body.calls():
+                if not any(x.k == "DeclRefExpr" and x.d.get("did") == did for a in c.kids[1:] for x in a.walk()):
+                    continue
+                cal = c.callee or ""
+                if cal in ("__builtin_va_start", "va_start", "__builtin_va_copy", "va_copy") and \
+                        any(x.k == "DeclRefExpr" and x.d.get("did") == did for x in c.kids[1].walk()):
+                    restarts.append(c)
+                elif cal in ("__builtin_va_end", "va_end", "__builtin_va_copy", "va_copy"):
+                    continue
+                elif cal == "__builtin_va_arg":
+                    continue
+                else:
+                    uses.append(c)
+            n += 1
+            where = site(prog, uses[0] if uses else F, name)
+            ck.inst("R05t", where, "%s: va_list %s is handed to %s" % (F.name, name, [u.callee for u in uses]), prog.config)
+            rpos = [F.cfg.position(r) for r in restarts]
+            for u in uses:
+                for u2 in uses:
+                    pu, pu2 = F.cfg.position(u), F.cfg.position(u2)
+                    if pu is None or pu2 is None:
+                        continue
+                    if F.cfg.reaches(pu, pu2, avoid=[x for x in rpos if x is not None]):
+                        ck.violation("R05t", "R05t/%s/%s" % (F.name, name), site(prog, u2, name),
+                                     "%s passes the va_list %s to %s after %s (line %d) has already consumed it, without va_end/va_start or "
+                                     "va_copy in between: the second callee reads indeterminate arguments (wild %%s pointer)" % (
+                                         F.name, name, u2.callee, u.callee, u.line), prog.config)
+                        break
+    ck.floor("R05t", n, 6, "va_list variables")
